@@ -226,6 +226,10 @@ pub const EXT_COMPAT: u32 = EXT_ALL & !(1 << 10);
 const EXT_BITS: &[u32] = &[1 << 1, 1 << 3, 1 << 5, 1 << 6, 1 << 7, 1 << 9, 1 << 10, (1 << 11) | (1 << 1)];
 
 fn gen_cfg(r: &mut Rng) -> ParserCfg {
+    if r.chance(1, 6) {
+        // a converter built through ConverterBuilder from the bundled units plus a layer
+        return ParserCfg { ext_bits: if r.chance(2, 3) { EXT_ALL } else { EXT_COMPAT }, converter: if r.chance(1, 2) { "custom-de" } else { "custom-si" }.into() };
+    }
     match r.below(8) {
         0 => ParserCfg { ext_bits: 0, converter: "empty".into() },
         1 | 2 => ParserCfg { ext_bits: EXT_ALL, converter: "bundled".into() },
